@@ -57,9 +57,15 @@ class SimClock:
 
     EPOCH = 1_800_000_000.0
 
-    def __init__(self):
+    def __init__(self, jumps=None):
         self.now = 0.0
         self.reads = 0
+        # wall-clock steps (NTP correction, suspend/resume, the user setting the date): the i-th read of the
+        # wall clock first moves it by jumps[i] seconds, forwards or backwards.  The monotonic clock and the
+        # simulator's own time line are not affected.
+        self.jumps = list(jumps or [])
+        self.skew = 0.0
+        self.jumped = 0
 
     def advance(self, d):
         if d < 0:
@@ -72,7 +78,10 @@ class SimClock:
     def time(self):
         self.reads += 1
         self.now += 1e-6  # a clock read costs a microsecond, so spin-on-clock loops terminate
-        return self.EPOCH + self.now
+        if self.jumps:
+            self.skew += float(self.jumps.pop(0))
+            self.jumped += 1
+        return self.EPOCH + self.now + self.skew
 
     def monotonic(self):
         self.reads += 1
@@ -150,11 +159,10 @@ class _ChildStream:
 
     def _data(self):
         p = self._proc
-        if p._finish == INF and not p._killed:
-            raise SimHang("read() on a pipe of a helper that never finishes (no timeout)")
-        p._reap_by_waiting(None)
-        d = p._eff[self._which]
-        return d
+        if self.closed:
+            raise ValueError("I/O operation on closed file")
+        p._reap_by_waiting(None, pipes=True)
+        return p._visible(self._which)
 
     def read(self, n=-1):
         d = self._data()
@@ -233,6 +241,11 @@ class SimPopen:
         self._errors = errors or "strict"
         self._stdin_data = b""
         self._stdin_arg, self._stdout_arg, self._stderr_arg = stdin, stdout, stderr
+        # the helper leads its own process group (start_new_session / process_group=0): a group kill reaches
+        # everything it started
+        self._own_group = bool(start_new_session) or process_group == 0
+        self._orphan_end = None  # virtual time until which a descendant of the helper keeps the pipes open
+        self._orphan_killed = False
         if shell or preexec_fn is not None:
             raise Unmodelled("Popen(shell=%r, preexec_fn=%r)" % (shell, preexec_fn))
         for name, v in (("stdin", stdin), ("stdout", stdout), ("stderr", stderr)):
@@ -247,6 +260,9 @@ class SimPopen:
         self._spawn_t = w.clock.now
         kind = self._plan.get("kind", "ok")
         w.fault_fired(kind)
+        if kind == "orphan":
+            life = self._plan.get("life", "inf")
+            self._orphan_end = INF if life in (None, "inf") else self._spawn_t + float(life)
         if kind == "spawn_fail":
             en = self._plan.get("errno", _errno.EAGAIN)
             w.event("helper", self._req, self._idx, "spawn_fail", en)
@@ -324,7 +340,7 @@ class SimPopen:
         dur = plan.get("d", 0.2) + oc.get("slept", 0.0)
         if state != "exit":
             dur, rc, out, err = INF, None, oc.get("out", b""), oc.get("err", b"")
-        if kind in ("ok", "slow"):
+        if kind in ("ok", "slow", "orphan"):
             pass
         elif kind == "stall":
             dur = INF
@@ -377,32 +393,47 @@ class SimPopen:
         if self._stderr_arg is None and self._eff["err"]:
             w.inherited_output(2, self._eff["err"])
 
-    def _reap_by_waiting(self, timeout):
-        """block until the child ends or the timeout expires (virtual time)"""
+    def _proc_end(self):
+        """virtual time at which the helper process itself is gone"""
+        return self._kill_t if self._killed else self._finish
+
+    def _open_pipes(self):
+        return [st for st in (self.stdout, self.stderr) if st is not None and not st.closed]
+
+    def _pipes_end(self):
+        """virtual time at which the last write end of the helper's output pipes is closed: the helper's
+        own end, or later if a process it started inherited the pipes and is still alive"""
+        t = self._proc_end()
+        if self._orphan_end is not None and not self._orphan_killed and self._open_pipes():
+            t = max(t, self._orphan_end)
+        return t
+
+    def _reap_by_waiting(self, timeout, pipes=False):
+        """block until the child ends (pipes=True: until its output pipes reach EOF, which is what
+        communicate()/read() wait for) or the timeout expires (virtual time)"""
         w = self.world
         self._resolve()
-        if self.returncode is not None:
-            return True
-        if self._killed:
-            return True
         now = w.clock.now
-        if self._finish <= now:
+        target = self._pipes_end() if pipes else self._proc_end()
+        reached = True
+        if target > now:
+            if timeout is None:
+                if target == INF:
+                    w.event("helper", self._req, self._idx, "wait-forever", "pipes" if self._proc_end() != INF else "process")
+                    if self._proc_end() != INF:
+                        raise SimHang("blocking read without timeout on the pipes of a helper whose descendant keeps them open forever")
+                    raise SimHang("blocking wait without timeout on a helper that never finishes")
+                w.clock.advance(target - now)
+            else:
+                timeout = float(timeout)
+                if target <= now + timeout:
+                    w.clock.advance(target - now)
+                else:
+                    w.clock.advance(max(timeout, 0.0))
+                    reached = False
+        if self.returncode is None and not self._killed and self._finish <= w.clock.now:
             self._mark_exit()
-            return True
-        if timeout is None:
-            if self._finish == INF:
-                w.event("helper", self._req, self._idx, "wait-forever")
-                raise SimHang("blocking wait without timeout on a helper that never finishes")
-            w.clock.advance(self._finish - now)
-            self._mark_exit()
-            return True
-        timeout = float(timeout)
-        if self._finish <= now + timeout:
-            w.clock.advance(self._finish - now)
-            self._mark_exit()
-            return True
-        w.clock.advance(max(timeout, 0.0))
-        return False
+        return reached
 
     # -- Popen API -------------------------------------------------------------------------
     def communicate(self, input=None, timeout=None):
@@ -411,7 +442,7 @@ class SimPopen:
             if self._stdin_arg != PIPE:
                 raise Unmodelled("communicate(input=...) without stdin=PIPE")
             self.stdin.write(input)
-        if not self._reap_by_waiting(timeout):
+        if not self._reap_by_waiting(timeout, pipes=True):
             w.event("helper", self._req, self._idx, "timeout", float(timeout))
             w.probe("helper-timeout")
             raise TimeoutExpired(self.args, timeout)
@@ -465,6 +496,20 @@ class SimPopen:
     def kill(self):
         self.send_signal(signal.SIGKILL)
 
+    def _signal_group(self, sig):
+        """os.killpg on the helper's own process group: the helper and everything it started"""
+        w = self.world
+        self.send_signal(sig)
+        if self._orphan_end is not None and not self._orphan_killed and self._orphan_end > w.clock.now \
+                and sig in (signal.SIGKILL, signal.SIGTERM, signal.SIGINT, signal.SIGHUP, signal.SIGQUIT):
+            self._orphan_killed = True
+            w.event("helper", self._req, self._idx, "descendants-killed", int(sig))
+            w.probe("helper-descendants-killed")
+
+    def orphan_alive(self):
+        return (self._orphan_end is not None and not self._orphan_killed
+                and self._orphan_end > self.world.clock.now)
+
     def terminate(self):
         self.send_signal(signal.SIGTERM)
 
@@ -475,6 +520,9 @@ class SimPopen:
         # what subprocess.Popen.__exit__ does: close the pipes, then wait() without a timeout
         if exc_type is not None and issubclass(exc_type, SimSignal):
             return False
+        for st in (self.stdout, self.stderr, self.stdin):
+            if st is not None:
+                st.close()
         self.wait()
         return False
 
@@ -532,8 +580,26 @@ def install(world, step_monitoring):
         raise Unmodelled("os.waitpid(%r)" % (pid,))
 
     os.kill, os.waitpid = sim_kill, sim_waitpid
+    real_getpgid = os.getpgid
+
+    def sim_killpg(pgid, sig):
+        if pgid >= FAKE_PID_BASE:
+            p = world.helpers[pgid - FAKE_PID_BASE]
+            if not p._own_group:  # the helper is a member of the caller's group; no group has its pid as id
+                raise ProcessLookupError(_errno.ESRCH, os.strerror(_errno.ESRCH))
+            p._signal_group(sig)
+            return
+        raise Unmodelled("os.killpg(%r, %r) of a process group the simulator does not own" % (pgid, sig))
+
+    def sim_getpgid(pid):
+        if pid >= FAKE_PID_BASE:
+            p = world.helpers[pid - FAKE_PID_BASE]
+            return pid if p._own_group else real_getpgid(0)
+        return real_getpgid(pid)
+
+    os.killpg, os.getpgid = sim_killpg, sim_getpgid
     for name in ("system", "fork", "forkpty", "posix_spawn", "posix_spawnp", "popen",
-                 "execv", "execve", "execvp", "execl", "execlp", "spawnv", "spawnl", "killpg"):
+                 "execv", "execve", "execvp", "execl", "execlp", "spawnv", "spawnl"):
         if hasattr(os, name):
             setattr(os, name, _unmodelled("os." + name))
     try:
